@@ -47,9 +47,18 @@ func (c *Ctx) specEnvFor(st *State, fr *Frame) *SpecEnv {
 		env.vars[n] = v
 	}
 	sp := fr.Spec
-	if sp != nil {
-		for _, l := range sp.Lets {
-			env.vars[l.Name] = c.evalSpec(env, l.Expr)
+	if sp != nil && len(sp.Lets) > 0 {
+		// `let` names are bound once, in the function's entry state
+		if fr.Lets == nil {
+			fr.Lets = map[string]Value{}
+			for _, l := range sp.Lets {
+				v := c.evalSpec(env, l.Expr)
+				fr.Lets[l.Name] = v
+				env.vars[l.Name] = v
+			}
+		}
+		for k, v := range fr.Lets {
+			env.vars[k] = v
 		}
 	}
 	return env
@@ -170,6 +179,12 @@ func (c *Ctx) evalSpec(env *SpecEnv, e *SExpr) Value {
 		switch e.Op {
 		case "!":
 			return Not(v.(*Term))
+		case "*":
+			pv, ok := v.(PtrV)
+			if !ok {
+				specError("dereference of non-pointer in %s", e)
+			}
+			return c.selectDeref(env, pv)
 		case "-":
 			if u, ok := v.(UntypedInt); ok {
 				return UntypedInt{V: new(big.Int).Neg(u.V)}
@@ -599,6 +614,17 @@ func (c *Ctx) specSlice(env *SpecEnv, base Value, lo, hi *SExpr) Value {
 				h = b.Len
 			}
 			return SliceV{Elem: b.Elem, Heap: true, Ref: b.Ref, Off: Arith("+", b.Off, l), Len: Arith("-", h, l), Cap: Arith("-", b.Cap, l)}
+		}
+		if hi != nil {
+			h = c.evalTerm(env, hi)
+		} else {
+			h = c.idx(int64(b.CLen))
+		}
+		if b.Obj != nil && isNum(l) && isNum(h) {
+			lo, hh := c.constIdx(l), c.constIdx(h)
+			if lo >= 0 && lo <= hh && hh <= b.CCap {
+				return SliceV{Elem: b.Elem, Obj: b.Obj, COff: b.COff + lo, CLen: hh - lo, CCap: b.CCap - lo}
+			}
 		}
 	}
 	specError("cannot slice %s in contract", showValue(base))
@@ -1071,6 +1097,32 @@ func (c *Ctx) specCall(env *SpecEnv, e *SExpr) Value {
 				return Eq(ha.Ref, IntC(0))
 			}
 			return False()
+		case "asptr":
+			// asptr(e, "T"): the pointer payload of interface value e, viewed as *T
+			if len(e.Args) != 3 || e.Args[2].Kind != "str" {
+				specError("asptr(e, \"TypeName\")")
+			}
+			v := c.evalSpec(env, e.Args[1])
+			iv, ok := v.(IfaceV)
+			if !ok {
+				specError("asptr needs an interface value")
+			}
+			var tt types.Type
+			if p := c.Eng.PkgBy[env.pkg]; p != nil && p.Types != nil {
+				if obj := p.Types.Scope().Lookup(e.Args[2].Name); obj != nil {
+					tt = obj.Type()
+				}
+			}
+			if tt == nil {
+				specError("asptr: unknown type %s", e.Args[2].Name)
+			}
+			if iv.Nil {
+				return PtrV{Nil: true}
+			}
+			if iv.Dyn != nil {
+				return iv.Val
+			}
+			return PtrV{Sym: iv.Sym, Typ: tt}
 		case "purecall":
 			// purecall("Color.RGB", i, args...): the i-th result of a function whose contract is marked `pure`
 			if len(e.Args) < 3 || e.Args[1].Kind != "str" || e.Args[2].Kind != "int" {
@@ -1244,7 +1296,11 @@ func (c *Ctx) specCastTo(env *SpecEnv, to types.Type, v Value, src *SExpr) Value
 		return t
 	}
 	if c.BV && t.Sort.Kind == SBV {
-		return BVResize(t, intBits(to), c.specSigned(env, src))
+		signed := c.specSigned(env, src)
+		if t.Sort.Bits == 8 {
+			signed = false // 8-bit values are bytes
+		}
+		return BVResize(t, intBits(to), signed)
 	}
 	if !c.BV && t.Sort.Kind == SInt {
 		// mathematical cast: identity (contracts state ranges explicitly)
@@ -1590,6 +1646,8 @@ func (c *Ctx) checkCallClause(st *State, fr *Frame, cl Clause, i int) {
 				}
 				if k < len(r.Args) {
 					env.vars[b.Name] = r.Args[k]
+				} else if k == len(r.Args) && r.Ret != nil {
+					env.vars[b.Name] = r.Ret // one binder more than arguments: the result
 				}
 			}
 			t := c.evalBool(env, e.Args[1])
